@@ -18,7 +18,7 @@ let toks = ref []
 let next () = match !toks with x :: r -> toks := r; x | [] -> raise Short
 let nexti () = int_of_string (next ())
 let z () = z_of_int (nexti ())
-let rec rep n f = if n <= 0 then [] else let x = f () in x :: rep (n-1) f
+let rep n f = let rec go n acc = if n <= 0 then List.rev acc else let x = f () in go (n-1) (x :: acc) in go n []
 
 (* exact value m * 2^e of a binary32 number *)
 let rec shift_pos p e = if e <= 0 then p else shift_pos (XO p) (e - 1)
